@@ -105,7 +105,7 @@ def cell_world(tag, ci, updopt, upd, kind, state, stored_empty=False, eol='lf'):
     return w
 
 
-def clean_world(tag, ci, upd, sortopt, stale, sorted_file, eol='lf', updcall=None):
+def clean_world(tag, ci, upd, sortopt, stale, sorted_file, eol='lf', updcall=None, late_env=None, second=False):
     """updcall: the Config carries Update(true|false) and the second call brings a changed value (rewritten, or reported,
     as the Match table says): what Clean may delete still follows the environment only"""
     w = World(tag)
@@ -123,6 +123,16 @@ def clean_world(tag, ci, upd, sortopt, stale, sorted_file, eol='lf', updcall=Non
     if stale:
         w.add('fsput %s %s' % (hx('snaps/orphan.snap'), hx(frame(b'TestOrphan - 1', b'x'))))
     w.add('fsput %s %s' % (hx('snaps/notes.txt'), hx(b'keep me')))
+    if second:
+        # a second used file, hand-edited (a note at the top, no blank line before the first entry), holding nothing
+        # obsolete and in order: whatever Clean does to the first file, this one is left alone
+        w.add(cfg_line(2, 'snaps', 'g', None, 'none'))
+        gtext = b'# regenerate with UPDATE_SNAPS=true\n[TestG - 1]\nvg\n---\n\n[TestG - 2]\nvg2\n---\n'
+        w.add('fsput %s %s' % (hx('snaps/g.snap'), hx(gtext)))
+        w.add('begin 2 %s' % hx(b'TestG'))
+        w.add('snap 2 2 %s' % hx(b'vg'), ('setup-call-passes', exp_silent))
+        w.add('snap 2 2 %s' % hx(b'vg2'), ('setup-call-passes', exp_silent))
+        w.add('end 2')
     w.add('begin 1 %s' % hx(b'TestC'))
     for k in (1, 2, 3):
         if updcall and k == 2:
@@ -130,6 +140,10 @@ def clean_world(tag, ci, upd, sortopt, stale, sorted_file, eol='lf', updcall=Non
         else:
             w.add('snap 1 1 %s' % hx(b'v%d' % k), ('setup-call-passes', exp_silent))
     w.add('end 1')
+    if late_env:
+        # the process changes its environment while it runs (an os.Setenv / t.Setenv in some test): the mode is what
+        # the process STARTED with
+        w.add('setenv UPDATE_SNAPS %s' % hx(late_env))
     ref = w.add('fsdump')
     deletes = (not ci) and upd in ('true', 'clean')
     sorts = (not ci) and sortopt == '1'
@@ -157,6 +171,9 @@ def clean_world(tag, ci, upd, sortopt, stale, sorted_file, eol='lf', updcall=Non
             return 'obsolete file %s although the mode table says deletes=%s' % ('kept' if orphan[0] in b else 'removed', deletes)
         if pa not in b:
             return 'the addressed snapshot file disappeared'
+        for pg in [p for p in a if p.endswith(b'/g.snap')]:
+            if b.get(pg) != a[pg]:
+                return 'the second used file holds nothing obsolete and is in order, but its bytes changed: %r' % (b.get(pg) or b'')[:80]
         ea, eb = parse(a[pa]), parse(b[pa])
         if eb is None:
             return 'snapshot file is not well formed after Clean'
@@ -243,6 +260,12 @@ def all_cells(envfilter=None):
             n += 1
             worlds.append(clean_world('clean-%d-%s' % (n, eol), ci, upd, sortopt, stale, sorted_file, eol=eol))
         if stale:
+            n += 1
+            worlds.append(clean_world('clean-%d-second' % n, ci, upd, sortopt, stale, sorted_file, second=True))
+            if upd in ('', 'other'):
+                for late in ('clean', 'true'):
+                    n += 1
+                    worlds.append(clean_world('clean-%d-late-%s' % (n, late), ci, upd, sortopt, stale, sorted_file, late_env=late))
             for updcall in ('true', 'false'):
                 n += 1
                 worlds.append(clean_world('clean-%d-upd%s' % (n, updcall), ci, upd, sortopt, stale, sorted_file, updcall=updcall))
